@@ -93,6 +93,7 @@ impl<'a> Shrinker<'a> {
             reset!(write_zero_at);
             reset!(flush_err);
             reset!(handler_err);
+            reset!(handler_panic);
         }
         {
             let mut cand = cur.clone();
